@@ -411,3 +411,303 @@ def translate_roc(repo):
 if __name__ == "__main__":
     import sys
     print(translate_roc(sys.argv[1] if len(sys.argv) > 1 else "/repo"))
+
+
+# ====================================================================================================== C16
+"""C16 (translate_rocci -> Gen_rocci.v):
+  gen_apply_rule_of_three      _apply_rule_of_three: the two corrections, comparison operators and thresholds
+  gen_roc_with_ci              body of roc_with_ci: support call (ROC_CI_EXTRA_POINTS), rates, the joint metric, the
+                               bootstrap call, joint_ci[0]/[1], both rule-of-three calls (n= arguments), both
+                               _aggregate_rectangles calls (argument order), the ROCCurve slots
+  gen_pointwise_band_ci, gen_simultaneous_joint_region_ci   the same for experimental/roc_ci.py
+  gen_fixed_width_support      the support call of fixed_width_band_ci
+  gen_roc_ci_extra_points      the module constant
+The bodies of _aggregate_rectangles, _displace_curve, _find_tube_radius and the loop of fixed_width_band_ci are tied by
+correspondence only."""
+
+R3_PARAMS = ["p", "ci", "alpha", "n"]
+AGG_PARAMS = ["x", "dxp", "dyp"]
+BAND_SIG = ("(succ pred : Q -> Q) (pow : Q -> Q -> Q) (Phi PhiInv pow15 : Q -> Q) (ksone_ppf : Q -> Z -> Q) (H : Type) "
+            "(dynamic_choice : Scores.scores -> config Scores.scores -> sampling Scores.scores) "
+            "(builtin_sample : sampling Scores.scores -> Scores.scores -> config Scores.scores -> H -> BootCI.res Scores.scores)")
+
+
+class R3Tr(Tr):
+    def expr(self, e):
+        if isinstance(e, ast.Call) and _u(e.func) == "math.pow" and len(e.args) == 2 and not e.keywords:
+            a, b = (self.coerce(self.expr(x), "Q") for x in e.args)
+            return (f"(pow {a} {b})", "Q")
+        return super().expr(e)
+
+
+def translate_rule_of_three(tree):
+    fn = find_function(tree, "_apply_rule_of_three")
+    if [a.arg for a in fn.args.args] != R3_PARAMS or fn.args.kwonlyargs or fn.args.defaults:
+        raise Reject("_apply_rule_of_three signature")
+    body = strip_doc(fn.body)
+    tr = R3Tr(env={"alpha": ("alpha", "Q"), "n": ("n", "Z")})
+    corrections = set()
+    out = []
+    for s in body[:-1]:
+        if not (isinstance(s, ast.Assign) and len(s.targets) == 1 and isinstance(s.targets[0], ast.Name)):
+            raise Reject(f"_apply_rule_of_three statement {_u(s)[:80]}")
+        tgt, v = s.targets[0].id, s.value
+        if isinstance(v, ast.Call) and _u(v.func) == "np.array":
+            # np.array([[a, b]])
+            if not (len(v.args) == 1 and not v.keywords and isinstance(v.args[0], ast.List) and len(v.args[0].elts) == 1
+                    and isinstance(v.args[0].elts[0], ast.List) and len(v.args[0].elts[0].elts) == 2):
+                raise Reject(f"correction shape {_u(v)}")
+            a, b = (tr.coerce(tr.expr(x), "Q") for x in v.args[0].elts[0].elts)
+            out.append(f"let {tgt} : rate * rate := (Some {a}, Some {b}) in")
+            corrections.add(tgt)
+        elif isinstance(v, ast.Call) and _u(v.func) == "np.where":
+            if tgt != "ci" or len(v.args) != 3 or v.keywords:
+                raise Reject(f"np.where statement {_u(s)}")
+            cond, a, b = v.args
+            if not (isinstance(cond, ast.Compare) and len(cond.ops) == 1 and _u(cond.left) == "p[:, np.newaxis]"):
+                raise Reject(f"np.where condition {_u(cond)}")
+            cmp_ = {ast.Lt: "rlt_q", ast.Gt: "rgt_q", ast.LtE: "rle_q", ast.GtE: "rge_q"}.get(type(cond.ops[0]))
+            if cmp_ is None:
+                raise Reject(f"comparison {_u(cond)}")
+            c = tr.coerce(tr.expr(cond.comparators[0]), "Q")
+            if not (isinstance(a, ast.Name) and a.id in corrections and isinstance(b, ast.Name) and b.id == "ci"):
+                raise Reject(f"np.where branches {_u(a)}, {_u(b)}")
+            out.append(f"let ci := map (fun pc => if {cmp_} (fst pc) {c} then {a.id} else snd pc) (combine p ci) in")
+        else:
+            raise Reject(f"_apply_rule_of_three statement {_u(s)[:80]}")
+    if _u(body[-1]) != "return ci":
+        raise Reject("_apply_rule_of_three return")
+    return ("Definition gen_apply_rule_of_three (pow : Q -> Q -> Q) (p : list rate) (ci : list (rate * rate)) (alpha : Q) (n : Z) "
+            ": list (rate * rate) :=\n  " + "\n  ".join(out) + "\n  ci.\n")
+
+
+def bind_args(call, params, what):
+    bound = {}
+    if len(call.args) > len(params):
+        raise Reject(f"{what}: too many arguments")
+    for p, a in zip(params, call.args):
+        bound[p] = a
+    for k in call.keywords:
+        if k.arg not in params or k.arg in bound:
+            raise Reject(f"{what}: keyword {k.arg}")
+        bound[k.arg] = k.value
+    if set(bound) != set(params):
+        raise Reject(f"{what}: arguments {sorted(bound)}")
+    return bound
+
+
+def name_of(e, env, ty, what):
+    if isinstance(e, ast.Name) and e.id in env and env[e.id][1] == ty:
+        return env[e.id][0]
+    raise Reject(f"{what}: {_u(e)} is not a {ty}")
+
+
+POPULATION = {"scores.nb_all_pos": "(nb_all_pos scores)", "scores.nb_all_neg": "(nb_all_neg scores)",
+              "len(scores.pos)": "(len (pos scores))", "len(scores.neg)": "(len (neg scores))",
+              "scores.nb_hard_pos": "(len (pos scores))", "scores.nb_hard_neg": "(len (neg scores))"}
+
+
+class BandTr:
+    """statement-by-statement translation of a band-producing function body into the res monad"""
+
+    def __init__(self, fn_fst, consts, has_xaxis):
+        self.fn_fst, self.consts = fn_fst, consts
+        self.env = {p: (p, FST_TYPES[p]) for p in ["scores", "fnr", "fpr", "thresholds", "nb_points"]}
+        if has_xaxis:
+            self.env["x_axis"] = ("x_axis", "X")
+        self.env["alpha"] = ("alpha", "Q")
+        self.env["config"] = ("config", "CFG")
+        self.closers = 0
+        self.n_expr = None     # Coq text of the number of curve points (length of the first stacked array)
+
+    def metric_def(self, fn):
+        if [a.arg for a in fn.args.args] != ["_scores"] or fn.args.kwonlyargs or fn.args.defaults:
+            raise Reject("_metric signature")
+        body = strip_doc(fn.body)
+        if len(body) != 3:
+            raise Reject("_metric body length")
+        parts, names = [], []
+        for k, s in enumerate(body[:2]):
+            if not (isinstance(s, ast.Assign) and isinstance(s.targets[0], ast.Name) and isinstance(s.value, ast.Call)):
+                raise Reject(f"_metric statement {_u(s)}")
+            outer = s.value
+            if not (isinstance(outer.func, ast.Attribute) and _u(outer.func.value) == "_scores" and outer.func.attr in ("fnr", "fpr")
+                    and len(outer.args) == 1 and not outer.keywords and isinstance(outer.args[0], ast.Call)):
+                raise Reject(f"_metric statement {_u(s)}")
+            inner = outer.args[0]
+            if not (isinstance(inner.func, ast.Attribute) and _u(inner.func.value) == "_scores"
+                    and inner.func.attr in ("threshold_at_fnr", "threshold_at_fpr") and len(inner.args) == 1 and not inner.keywords):
+                raise Reject(f"_metric statement {_u(s)}")
+            arr = name_of(inner.args[0], self.env, "LR", "_metric target array")
+            tname = f"t{k}"
+            parts.append((f"thresholds_at_{inner.func.attr[-3:]} succ pred _scores (map rval {arr})", tname,
+                          s.targets[0].id, f"rates_at s_{outer.func.attr} _scores {tname}"))
+            names.append(s.targets[0].id)
+        ret = body[2]
+        if not (isinstance(ret, ast.Return) and isinstance(ret.value, ast.Call) and _u(ret.value.func) == "np.stack"
+                and len(ret.value.args) == 1 and isinstance(ret.value.args[0], ast.List)
+                and [k.arg for k in ret.value.keywords] == ["axis"] and _u(ret.value.keywords[0].value) == "0"):
+            raise Reject(f"_metric return {_u(ret)}")
+        stacked = [x.id if isinstance(x, ast.Name) else None for x in ret.value.args[0].elts]
+        if len(stacked) != 2 or any(x not in names for x in stacked):
+            raise Reject(f"_metric return {_u(ret)}")
+        (c0, t0, v0, r0), (c1, t1, v1, r1) = parts
+        return (f"(fun (_scores : Scores.scores) (_ : unit) => rbind ({c0}) (fun {t0} => let {v0} := {r0} in "
+                f"rbind ({c1}) (fun {t1} => let {v1} := {r1} in Ret ({stacked[0]} ++ {stacked[1]}))))")
+
+    def stmt(self, s):
+        """returns Coq text that ends with an open continuation"""
+        env = self.env
+        if isinstance(s, ast.FunctionDef):
+            env[s.name] = (self.metric_def(s), "METRIC")
+            return ""
+        if not (isinstance(s, ast.Assign) and len(s.targets) == 1 and isinstance(s.targets[0], ast.Name)):
+            raise Reject(f"statement {_u(s)[:80]}")
+        tgt, v = s.targets[0].id, s.value
+        src = _u(v)
+        if isinstance(v, ast.Call) and _u(v.func) == "_find_support_thresholds":
+            call = fst_call(v, self.fn_fst, env, self.consts)
+            env[tgt] = (tgt, "LQ")
+            self.closers += 1
+            return f"rbind {call} (fun {tgt} =>\n  "
+        if isinstance(v, ast.Call) and isinstance(v.func, ast.Attribute) and _u(v.func.value) == "scores" and v.func.attr in ("fnr", "fpr"):
+            txt = rate_call(v, env)
+            env[tgt] = (tgt, "LR")
+            if self.n_expr is None:
+                self.n_expr = f"(length {tgt})"
+            return f"let {tgt} := {txt} in\n  "
+        if isinstance(v, ast.Call) and _u(v.func) == "scores.bootstrap_ci":
+            if v.args or sorted(k.arg for k in v.keywords) != ["alpha", "config", "metric"]:
+                raise Reject(f"bootstrap_ci call {src}")
+            kw = {k.arg: k.value for k in v.keywords}
+            metric = name_of(kw["metric"], env, "METRIC", "metric=")
+            a = name_of(kw["alpha"], env, "Q", "alpha=")
+            cfg = name_of(kw["config"], env, "CFG", "config=")
+            env[tgt] = ("data", "JOINT")
+            self.closers += 1
+            return (f"match bootstrap_ci_m Scores.scores unit (Threshold.res (list rate)) unit H (list nat * list rate) dynamic_choice "
+                    f"builtin_sample (fun _ _ _ _ => Raise) (ci_routine Phi PhiInv pow15 {self.n_expr}) scores (Callable {metric}) "
+                    f"{a} {cfg} hist tt with\n  | Err => Raise\n  | Ok (_, data) =>\n  let pairs := to_pairs data in\n  ")
+        if isinstance(v, ast.Subscript) and isinstance(v.value, ast.Name) and env.get(v.value.id, (None, None))[1] == "JOINT":
+            k = v.slice.value if isinstance(v.slice, ast.Constant) else None
+            if k == 0:
+                txt = f"firstn {self.n_expr} pairs"
+            elif k == 1:
+                txt = f"skipn {self.n_expr} pairs"
+            else:
+                raise Reject(f"row {_u(v.slice)} of the joint interval array")
+            env[tgt] = (tgt, "CI")
+            return f"let {tgt} := {txt} in\n  "
+        if isinstance(v, ast.Call) and _u(v.func) == "_apply_rule_of_three":
+            b = bind_args(v, R3_PARAMS, "_apply_rule_of_three")
+            pop = POPULATION.get(_u(b["n"]))
+            if pop is None:
+                raise Reject(f"rule-of-three population {_u(b['n'])}")
+            txt = (f"apply_rule_of_three pow {name_of(b['p'], env, 'LR', 'p=')} {name_of(b['ci'], env, 'CI', 'ci=')} "
+                   f"{name_of(b['alpha'], env, 'Q', 'alpha=')} {pop}")
+            env[tgt] = (tgt, "CI")
+            return f"let {tgt} := {txt} in\n  "
+        if isinstance(v, ast.Call) and _u(v.func) == "_aggregate_rectangles":
+            b = bind_args(v, AGG_PARAMS, "_aggregate_rectangles")
+            txt = (f"aggregate_rectangles {name_of(b['x'], env, 'LR', 'x')} {name_of(b['dxp'], env, 'CI', 'dxp')} "
+                   f"{name_of(b['dyp'], env, 'CI', 'dyp')}")
+            env[tgt] = (tgt, "CI")
+            return f"let {tgt} := {txt} in\n  "
+        if isinstance(v, ast.Call) and _u(v.func) == "scipy.stats.ksone.ppf":
+            if len(v.args) != 2 or v.keywords:
+                raise Reject(f"ksone.ppf call {src}")
+            tr = Tr(env={"alpha": ("alpha", "Q")})
+            q = tr.coerce(tr.expr(v.args[0]), "Q")
+            pop = POPULATION.get(_u(v.args[1]))
+            if pop is None:
+                raise Reject(f"ksone.ppf population {_u(v.args[1])}")
+            env[tgt] = (tgt, "Q")
+            return f"let {tgt} := ksone_ppf {q} {pop} in\n  "
+        if isinstance(v, ast.Call) and _u(v.func) == "np.stack":
+            # np.stack([r - d, r + d], axis=-1)
+            if not (len(v.args) == 1 and isinstance(v.args[0], ast.List) and len(v.args[0].elts) == 2
+                    and [k.arg for k in v.keywords] == ["axis"] and _u(v.keywords[0].value) == "-1"):
+                raise Reject(f"np.stack call {src}")
+            lo, hi = v.args[0].elts
+            if not (isinstance(lo, ast.BinOp) and isinstance(lo.op, ast.Sub) and isinstance(hi, ast.BinOp) and isinstance(hi.op, ast.Add)
+                    and _u(lo.left) == _u(hi.left) and _u(lo.right) == _u(hi.right)):
+                raise Reject(f"np.stack call {src}")
+            r = name_of(lo.left, env, "LR", "band centre")
+            d = name_of(lo.right, env, "Q", "band half-width")
+            env[tgt] = (tgt, "CI")
+            return f"let {tgt} := shift_ci {r} {d} in\n  "
+        raise Reject(f"statement {_u(s)[:80]}")
+
+    def body(self, stmts):
+        txt = ""
+        for s in stmts[:-1]:
+            txt += self.stmt(s)
+        if not isinstance(stmts[-1], ast.Return):
+            raise Reject("function does not end in return")
+        txt += f"Ret {roccurve_call(stmts[-1].value, self.env)}"
+        opened = txt.count("with\n  | Err => Raise")
+        return txt + "\n  end" * opened + ")" * (self.closers - opened)
+
+
+BAND_KWONLY = ["fnr", "fpr", "thresholds", "nb_points", "alpha", "config"]
+
+
+def exp_tree(repo):
+    return ast.parse(open(os.path.join(repo, "score_analysis", "experimental", "roc_ci.py")).read())
+
+
+def check_exp_imports(tree):
+    """the experimental module must use roc_curve's own helpers (not local redefinitions)"""
+    imported = set()
+    for n in tree.body:
+        if isinstance(n, ast.ImportFrom) and n.module == "score_analysis.roc_curve":
+            imported |= {a.name for a in n.names if a.asname is None}
+        if isinstance(n, ast.FunctionDef) and n.name in ("_aggregate_rectangles", "_apply_rule_of_three", "_find_support_thresholds"):
+            raise Reject(f"experimental/roc_ci.py redefines {n.name}")
+    need = {"ROCCurve", "_aggregate_rectangles", "_apply_rule_of_three", "_find_support_thresholds"}
+    if not need <= imported:
+        raise Reject(f"experimental/roc_ci.py does not import {sorted(need - imported)} from score_analysis.roc_curve")
+
+
+def band_function(tree, name, fn_fst, consts, has_xaxis, head_only=False):
+    fn = find_function(tree, name)
+    want = ["fnr", "fpr", "thresholds", "nb_points"] + (["x_axis"] if has_xaxis else []) + ["alpha", "config"]
+    if [a.arg for a in fn.args.args] != ["scores"] or [a.arg for a in fn.args.kwonlyargs] != want:
+        raise Reject(f"{name} signature")
+    bt = BandTr(fn_fst, consts, has_xaxis)
+    body = strip_doc(fn.body)
+    if head_only:
+        s = body[0]
+        if not (isinstance(s, ast.Assign) and _u(s.targets[0]) == "thresholds"):
+            raise Reject(f"{name}: first statement {_u(s)[:60]}")
+        return fst_call(s.value, fn_fst, bt.env, consts)
+    return bt.body(body)
+
+
+def translate_rocci(repo):
+    tree = roc_tree(repo)
+    consts = module_consts(tree)
+    fn_fst = fst_function(tree)
+    roccurve_fields(tree)
+    etree = exp_tree(repo)
+    check_exp_imports(etree)
+    out = [HEADER.format(src="score_analysis/roc_curve.py + experimental/roc_ci.py (confidence bands)", mod="Model.RocCI")]
+    out.append("Definition rle_q (p : rate) (c : Q) : bool := match p with Some x => Qleb x c | None => false end.\n"
+               "Definition rge_q (p : rate) (c : Q) : bool := match p with Some x => Qleb c x | None => false end.\n")
+    if "ROC_CI_EXTRA_POINTS" not in consts or not isinstance(consts["ROC_CI_EXTRA_POINTS"].value, int):
+        raise Reject("ROC_CI_EXTRA_POINTS")
+    out.append(f"Definition gen_roc_ci_extra_points : Z := ({consts['ROC_CI_EXTRA_POINTS'].value})%Z.\n")
+    out.append(translate_rule_of_three(tree))
+    sig_x = ("(scores : scores) (fnr fpr thresholds : option (list Q)) (nb_points : option Z) (x_axis : xaxis) (alpha : Q) "
+             "(config : config Scores.scores) (hist : nat -> H)")
+    sig = sig_x.replace(" (x_axis : xaxis)", "")
+    out.append(f"Definition gen_roc_with_ci {BAND_SIG} {sig_x} : Threshold.res roc_curve :=\n  "
+               + band_function(tree, "roc_with_ci", fn_fst, consts, True) + ".\n")
+    out.append(f"Definition gen_pointwise_band_ci {BAND_SIG} {sig} : Threshold.res roc_curve :=\n  "
+               + band_function(etree, "pointwise_band_ci", fn_fst, consts, False) + ".\n")
+    out.append(f"Definition gen_simultaneous_joint_region_ci {BAND_SIG} {sig} : Threshold.res roc_curve :=\n  "
+               + band_function(etree, "simultaneous_joint_region_ci", fn_fst, consts, False) + ".\n")
+    out.append("Definition gen_fixed_width_support (succ pred : Q -> Q) (scores : scores) (fnr fpr thresholds : option (list Q)) "
+               "(nb_points : option Z) : Threshold.res (list Q) :=\n  "
+               + band_function(etree, "fixed_width_band_ci", fn_fst, consts, False, head_only=True) + ".\n")
+    return "".join(out)
